@@ -5,6 +5,7 @@ import (
 	"fmt"
 	distributed "github.com/wealdtech/go-eth2-wallet-distributed"
 	keystorev4 "github.com/wealdtech/go-eth2-wallet-encryptor-keystorev4"
+	nd "github.com/wealdtech/go-eth2-wallet-nd/v2"
 	scratch "github.com/wealdtech/go-eth2-wallet-store-scratch"
 	"os"
 	"path/filepath"
@@ -118,8 +119,18 @@ func cmdList(args []string) int {
 				es[i], es[j] = es[j], es[i]
 			}
 		}
+		// an entry that tells two accounts apart whose names share their part before a slash of their own
+		pc.Entries["client1"] = append([]permEntry{{W: &Pat{Top: []*rnode{litSeq("Wallet 1")}}, A: &Pat{Top: []*rnode{litSeq("grp/Old 5")}}, Ops: []string{"~Access account", "All"}}}, pc.Entries["client1"]...)
 		pc.Clients = append(pc.Clients, "admin")
-		pc.Entries["admin"] = []permEntry{{W: &Pat{Top: []*rnode{litSeq("Wallet 1")}}, A: &Pat{Empty: true}, Ops: []string{"Create account"}}}
+		pc.Entries["admin"] = []permEntry{{W: &Pat{Top: []*rnode{litSeq("Wallet 1"), litSeq("Wallet E")}}, A: &Pat{Empty: true}, Ops: []string{"Create account"}}}
+		if rng.Chance(75) {
+			pc.Entries["client1"] = append(pc.Entries["client1"], permEntry{W: &Pat{Top: []*rnode{litSeq("Wallet E")}}, A: &Pat{Empty: true}, Ops: []string{"Access account"}})
+		}
+		// a wallet that holds no account when the instance starts
+		// (in the first store: the process service creates accounts in wallets of the first store only)
+		if _, err := nd.CreateWallet(ctx, "Wallet E", fx.Stores[0], keystorev4.New()); err != nil {
+			return 2
+		}
 		distStore, distAccs, err := mkDistStore()
 		if err != nil {
 			fmt.Fprintln(os.Stderr, "distributed wallet:", err)
@@ -160,16 +171,28 @@ func cmdList(args []string) int {
 		for call := 0; call < nCalls; call++ {
 			// dynamic creation in between
 			if call > 0 && call%5 == 0 {
-				name := fmt.Sprintf("New %d", call)
-				path := "Wallet 1/" + name
-				r, pk, _, err := node.AcctMgr.Generate(ctx, &checker.Credentials{Client: "admin"}, path, []byte("pass"), 1, 1)
-				_ = err
-				if r == core.ResultSucceeded {
-					nextID++
-					overlay = append(overlay, acc{"Wallet 1", name, nextID, pk})
-					stats["created"]++
-				} else {
-					stats["create.refused"]++
+				// in a wallet with accounts, in the wallet that had none at start-up, and under a name with a slash of its own
+				for _, target := range [][2]string{{"Wallet 1", fmt.Sprintf("New %d", call)}, {"Wallet E", fmt.Sprintf("New %d", call)}, {"Wallet 1", fmt.Sprintf("grp/New %d", call)}, {"Wallet 1", fmt.Sprintf("grp/Old %d", call)}} {
+					wname, name := target[0], target[1]
+					if wname != "Wallet 1" && call != 10 {
+						continue
+					}
+					if strings.Contains(name, "/") && call != 5 {
+						continue
+					}
+					r, pk, _, err := node.AcctMgr.Generate(ctx, &checker.Credentials{Client: "admin"}, wname+"/"+name, []byte("pass"), 1, 1)
+					_ = err
+					if r == core.ResultSucceeded {
+						nextID++
+						overlay = append(overlay, acc{wname, name, nextID, pk})
+						stats["created"]++
+						stats["created."+wname]++
+					} else {
+						stats["create.refused"]++
+						if len(samples) < 12 {
+							samples = append(samples, fmt.Sprintf("creation of %s/%s refused: %s %v", wname, name, r, err))
+						}
+					}
 				}
 			}
 			// ... the cache insertions of overlapping creations at the very same time: what concurrent Generate requests
@@ -213,7 +236,7 @@ func cmdList(args []string) int {
 			client := []string{"client1", "client1", "client1", "client1", "client1", "client1", "client2", "client2", "nobody", ""}[rng.Intn(10)]
 			var paths []listPath
 			for n := 1 + rng.Intn(3); n > 0; n-- {
-				w := []string{"Wallet 1", "Wallet 2", "Wallet 1", "Wallet 2", "Wallet 1", "Wallet D", "Wallet D", "Wallet 1", "Wallet 9", "wallet 1"}[rng.Intn(10)]
+				w := []string{"Wallet 1", "Wallet 2", "Wallet 1", "Wallet 2", "Wallet 1", "Wallet D", "Wallet D", "Wallet 1", "Wallet 9", "wallet 1", "Wallet E", "Wallet E"}[rng.Intn(12)]
 				switch r := rng.Intn(20); {
 				case r < 6:
 					paths = append(paths, listPath{Text: w, W: w})
@@ -343,7 +366,7 @@ func cmdList(args []string) int {
 			}
 			id++
 			baseAccts := "(" + coqAccounts(fx) + " ++ [AC \"Wallet D\" \"Dist 0\" 201%N true true; AC \"Wallet D\" \"Dist 1\" 202%N true true])%list"
-			lcases = append(lcases, fmt.Sprintf(" LC %s (WD grouped t%d %s %s %s) %s %s %s", coqN(id), ci, coqStrList([]string{"Wallet 1", "Wallet 2", "Wallet D"}),
+			lcases = append(lcases, fmt.Sprintf(" LC %s (WD grouped t%d %s %s %s) %s %s %s", coqN(id), ci, coqStrList([]string{"Wallet 1", "Wallet 2", "Wallet D", "Wallet E"}),
 				baseAccts, coqList(ov), coqStr(client), coqList(cps), coqList(obs)))
 			idx[fmt.Sprint(id)] = fmt.Sprintf("permissions {%s} created %d; ListAccounts(%q) by %q = %v", pc.text(), len(overlay), texts, client, got)
 			distinct[fmt.Sprintf("%d|%s|%v|%d", ci, client, texts, len(overlay))] = true
